@@ -61,3 +61,9 @@ Theorem C20_gate_in_force :
   /\ list_normalisation = "map(frozenset, (blacklist or iter(()), whitelist or iter(())))"%string
   /\ forallb (fun c => existsb (String.eqb c) ["'.'.join"; "iter"; "map"; "module_name.startswith"; "frozenset"]%string) calls_before_gate = true.
 Proof. repeat split; vm_compute; reflexivity. Qed.
+
+(* ... and on the command line every occurrence of --blacklist / --whitelist counts: both options of the exmod sub-parser (read from
+   cdd/__main__.py on every run) collect with action='append' and nothing else (no nargs, no type, no default). *)
+Theorem C20_cli_lists_accumulate :
+  cli_list_options = [("--blacklist", "action='append'"); ("--whitelist", "action='append'")]%string.
+Proof. vm_compute. reflexivity. Qed.
